@@ -152,7 +152,7 @@ def mutate(g, defn):
     nm = g.pick(names)
     s = m["States"][nm]
     op = g.pick(["drop", "drop", "wrong_type", "wrong_type", "retarget", "retarget", "retag", "dup_name", "both", "end_false", "unreachable", "extra_field",
-                 "machine_field", "empty_states", "choice_shape", "rename", "empty_member", "empty_member", "non_object_member", "non_object_member"])
+                 "machine_field", "empty_states", "choice_shape", "rename", "empty_member", "empty_member", "non_object_member", "non_object_member", "dup_name_sibling", "dup_name_sibling"])
     label = op
     if op == "drop":
         fields = [f for f in s if f != "Comment"]
@@ -204,6 +204,28 @@ def mutate(g, defn):
             label = "dup_name:across-scopes"
         else:
             label = "dup_name:none"
+    elif op == "dup_name_sibling":
+        # the same state name in two nested machines neither of which encloses the other (two Branches of one Parallel, the Iterators of two Maps, ...)
+        sib = [(p2, m2) for p2, m2 in sc if m2 is not m and p2[:len(path)] != path and path[:len(p2)] != p2]
+        if sib:
+            p2, m2 = g.pick(sib)
+            new = g.pick([n for n in m2["States"]])
+            if new not in m["States"]:
+                m["States"][new] = m["States"].pop(nm)
+                for s2 in m["States"].values():
+                    if isinstance(s2, dict):
+                        if s2.get("Next") == nm:
+                            s2["Next"] = new
+                        if s2.get("Default") == nm:
+                            s2["Default"] = new
+                        for r in (s2.get("Choices") if isinstance(s2.get("Choices"), list) else []) + (s2.get("Catch") if isinstance(s2.get("Catch"), list) else []):
+                            if isinstance(r, dict) and r.get("Next") == nm:
+                                r["Next"] = new
+                if m.get("StartAt") == nm:
+                    m["StartAt"] = new
+            label = "dup_name:sibling-scopes"
+        else:
+            label = "dup_name:no-sibling-scope"
     elif op == "both":
         s["Next"] = g.pick(names)
         s["End"] = True
@@ -371,7 +393,7 @@ def run_poison(sc):
         poison_arn = None
         status = "sent"
         if sc["kind"] == "definition":
-            st, r = w.create_state_machine("poison", sc["value"])
+            st, r = w.create_state_machine("poison", sc["value"], type_=sc.get("type", "STANDARD"))
             if st >= 500:
                 fails.append(("internal-error:CreateStateMachine", "%s %r" % (st, r)))
             if st != 200:
@@ -384,7 +406,10 @@ def run_poison(sc):
                     poison_arn = r["executionArn"]
         else:
             body = sc["value"]
-            raw = body.encode("utf8") if isinstance(body, str) else json.dumps(body).encode("utf8")
+            if isinstance(body, dict) and "__bytes_hex__" in body:
+                raw = bytes.fromhex(body["__bytes_hex__"])
+            else:
+                raw = body.encode("utf8") if isinstance(body, str) else json.dumps(body).encode("utf8")
             w.harness_channel.basic_publish("", sc.get("queue", "asl_workflow_events"), raw,
                                             pika.BasicProperties(content_type="application/json", message_id=sc.get("message_id")))
         res = w.run(sc.get("schedule", ()), max_steps=3000, until=quiet(60))
@@ -467,19 +492,24 @@ def strategies():
     M = st.one_of(mutant().map(lambda t: {"family": "M", "value": t[0], "labels": t[1]}), mutant().map(lambda t: {"family": "M", "value": t[0], "labels": t[1]}),
                   mutant().map(lambda t: {"family": "M", "value": t[0], "labels": t[1]}),
                   st.sampled_from([{}, [], None, 0, "s", {"States": {}}, {"StartAt": "A"}, [{}]]).map(lambda v: {"family": "M", "value": v, "labels": ["top-level-odd-value"]}))
-    Cdef = st.tuples(st.one_of(mutant().map(lambda t: t), any_json.filter(lambda v: isinstance(v, dict) and v).map(lambda v: (v, ["arbitrary-object"]))), sched).map(
-        lambda t: {"family": "C", "kind": "definition", "value": t[0][0], "labels": t[0][1], "schedule": t[1]})
+    Cdef = st.tuples(st.one_of(mutant().map(lambda t: t), any_json.filter(lambda v: isinstance(v, dict) and v).map(lambda v: (v, ["arbitrary-object"]))), sched, st.sampled_from(["STANDARD", "STANDARD", "EXPRESS"])).map(
+        lambda t: {"family": "C", "kind": "definition", "value": t[0][0], "labels": t[0][1], "schedule": t[1], "type": t[2]})
 
     @st.composite
     def event(draw):
         from .. import world as W
         W.install()
         ev = start_event(W)
-        how = draw(st.sampled_from(["arbitrary", "arbitrary", "not-json", "drop", "drop", "replace", "replace", "unknown-machine", "unknown-state", "mid-state"]))
+        how = draw(st.sampled_from(["arbitrary", "arbitrary", "not-json", "not-utf8", "drop", "drop", "replace", "replace", "unknown-machine", "unknown-state", "mid-state"]))
         if how == "arbitrary":
             ev = draw(any_json)
         elif how == "not-json":
             ev = draw(st.sampled_from(["{bad", "", "\x00\x01", "[1,", "nul"]))
+        elif how == "not-utf8":
+            # a body that is not UTF-8 text at all: JSON in another encoding, a lone continuation byte, a truncated multi-byte sequence, a binary blob
+            good = json.dumps(ev)
+            ev = {"__bytes_hex__": draw(st.sampled_from([good.encode("utf-16").hex(), ('{"data": "caf\xe9"}').encode("latin-1").hex(), "80", "e282", "fffe00", good.encode("utf8").hex() + "ff",
+                                                         "c328", "00ff00ff"]))}
         elif how in ("drop", "replace"):
             paths = [("data",), ("context",), ("context", "Execution"), ("context", "Execution", "Id"), ("context", "Execution", "Input"), ("context", "Execution", "Name"),
                      ("context", "Execution", "StartTime"), ("context", "State"), ("context", "State", "Name"), ("context", "State", "EnteredTime"), ("context", "StateMachine"),
@@ -524,7 +554,7 @@ def run_scenario(sc):
     fails = run_poison(sc)
     if fails == "loop":
         return [], ["family-C-isolation", "poison-loops-until-history-limit(inconclusive)"], False
-    classes = ["family-C-isolation", "poison-" + sc["kind"]] + ["mut-" + l.split(":")[0] for l in labels] + (["schedule-deviating"] if any(sc.get("schedule", ())) else [])
+    classes = ["family-C-isolation", "poison-" + sc["kind"]] + (["poison-type-" + sc["type"]] if sc.get("type") else []) + ["mut-" + l.split(":")[0] for l in labels] + (["schedule-deviating"] if any(sc.get("schedule", ())) else [])
     return fails, classes, True
 
 
